@@ -123,7 +123,7 @@ def main():
                  "schedules built before or after the observed one, late and "
                  "repeated finalisation, finalize calls that must be rejected, "
                  "bool-like flags, shuffled storage queries); the detection "
-                 "matrix for 52 own patches and 123 independently seeded "
+                 "matrix for 52 own patches and 142 independently seeded "
                  "changes is in DESIGN.md section 7.",
     }
     with open(os.path.join(ROOT, "MANIFEST.json"), "w") as f:
